@@ -426,6 +426,19 @@ func main() {
 		}
 		fmt.Fprintf(&b, "def k8sLoadFilter : String := %q\n", filter)
 		fmt.Fprintf(&b, "def k8sLoadFilterBeforeSave : Bool := %v\n", filterBeforeSave)
+		// ---- stopping a store: rateLimiter.stopLeading, stopLimitStoreWithRetry, objectStore.Stop, the flusher
+		b.WriteString("/-! stopping a shard's store -/\n")
+		fmt.Fprintf(&b, "def stopLeadingBody : String := %q\n", show(sl.Body))
+		fmt.Fprintf(&b, "def stopWithRetryBody : String := %q\n", show(mustFunc(rf, rlFile, "", "stopLimitStoreWithRetry").Body))
+		fmt.Fprintf(&b, "def k8sStopBody : String := %q\n", show(mustFunc(kf, ksFile, "objectStore", "Stop").Body))
+		flusher := ""
+		ast.Inspect(mustFunc(kf, ksFile, "", "NewK8sCacheStore").Body, func(x ast.Node) bool {
+			if ifs, ok := x.(*ast.IfStmt); ok && strings.Contains(show(ifs.Body), "go wait.Until(") {
+				flusher = show(ifs)
+			}
+			return true
+		})
+		fmt.Fprintf(&b, "def k8sFlusher : String := %q\n", flusher)
 		b.WriteString("end KG.Gen.C13\n")
 		g.Emit("C13.lean", b.String())
 	})
